@@ -36,6 +36,9 @@ import (
 //	           (or before the client's next own step): a packet that arrives in two TCP segments, other things happening in between
 //	pubrest    the remainder of client C's pending partial PUBLISH
 //	churn      IdleMs (a count here) throw-away clients connect to node Node at the same moment and disconnect cleanly
+//	recycle    C throw-away subscribers of mount point MP on node Node stop acknowledging, are sent one QoS 1 message (Topic/Payload) and drop their
+//	           connections; IdleMs throw-away clients of mount point ClientID (another tenant; no subscriptions) connect; every in-flight
+//	           entry expires; the newcomers must have been sent nothing
 //	rpcunsub   an operator removes client C's subscription Filters[0] through node Node's DeleteSubscription RPC
 //	rpcclear   an operator clears the retained message of Topic in mount point MP through node Node's DeleteRetainedMessage RPC
 type Step struct {
@@ -282,6 +285,22 @@ func (w *World) Apply(st Step) (problem string, inconclusive bool) {
 	}
 	switch st.Op {
 	case "idle", "wait", "churn", "failnode", "failrestart", "restartnode", "gossip1", "gossipall", "sweep", "rpcunsub", "rpcclear", "pubpart":
+	case "connect", "connectclose":
+		// a session that is about to be taken over completes its half-written packet first (what
+		// a displaced session still gets through is not modelled)
+		if s != nil && !s.Connected {
+			for _, o2 := range w.S {
+				mp2 := st.MP
+				if mp2 == "" {
+					mp2 = "_default"
+				}
+				if o2 != s && o2.Alive && o2.ClientID == st.ClientID && w.mp(o2) == mp2 {
+					if p, ok := flushTail(o2); p != "" || !ok {
+						return p, inconclusive
+					}
+				}
+			}
+		}
 	default:
 		if p, ok := flushTail(s); p != "" || !ok {
 			return p, inconclusive
@@ -824,6 +843,77 @@ func (w *World) Apply(st Step) (problem string, inconclusive bool) {
 			}
 		}
 		w.Cl.AntiEntropy()
+		if !settle() {
+			return
+		}
+	case "recycle":
+		n := w.Cl.Nodes[st.Node%len(w.Cl.Nodes)]
+		if n.Down || st.C <= 0 || st.IdleMs <= 0 {
+			return "", false
+		}
+		var dying, fresh []*Client
+		for i := 0; i < st.C; i++ {
+			w.churned++
+			k := w.Cl.NewClient(fmt.Sprintf("dying%d", w.churned))
+			k.NoDeliveryAck = true
+			k.AttachTo(n)
+			k.Send(EncConnect(ConnectOpts{ClientID: k.Name, KeepAlive: 600, Username: st.MP}))
+			k.Send(EncSubscribe(1, []string{"#"}, []byte{byte(1 + i%2)}))
+			dying = append(dying, k)
+		}
+		if !settle() {
+			return
+		}
+		mp := st.MP
+		if mp == "" {
+			mp = "_default"
+		}
+		w.modelPublish(mp, st.Topic, st.Payload, false, n)
+		dying[0].Send(EncPublish(st.Topic, []byte(st.Payload), 0, false, false, 0))
+		if !settle() {
+			return
+		}
+		for _, k := range dying {
+			live := 0
+			for _, pk := range k.Publishes() {
+				switch {
+				case !pk.Retain && pk.Topic == st.Topic && pk.Payload == st.Payload:
+					live++
+				case pk.Retain && w.Retained[mp][pk.Topic] == pk.Payload && pk.Payload != "":
+					// the tenant's retained messages, replayed to the new subscription
+				default:
+					return fmt.Sprintf("throw-away subscriber %s of mount point %s (filter #) received %v, which is neither the message just published (%s=%s) nor a retained message of its tenant", k.Name, mp, pk, st.Topic, st.Payload), false
+				}
+			}
+			if live != 1 {
+				return fmt.Sprintf("throw-away subscriber %s of mount point %s (filter #) received %d copies of %s=%s, want 1 (all: %v)", k.Name, mp, live, st.Topic, st.Payload, k.Publishes()), false
+			}
+			k.Close()
+		}
+		if !settle() {
+			return
+		}
+		for i := int64(0); i < st.IdleMs; i++ {
+			w.churned++
+			k := w.Cl.NewClient(fmt.Sprintf("fresh%d", w.churned))
+			k.AttachTo(n)
+			k.Send(EncConnect(ConnectOpts{ClientID: k.Name, KeepAlive: 600, Username: st.ClientID}))
+			fresh = append(fresh, k)
+		}
+		if !settle() {
+			return
+		}
+		if p, inc := w.Apply(Step{Op: "sweep"}); p != "" || inc {
+			return p, inc
+		}
+		for _, k := range fresh {
+			for _, pk := range k.Rx {
+				if pk.Type != CONNACK {
+					return fmt.Sprintf("client %s of mount point %q, which never subscribed, was sent %v (a message for sessions of mount point %q that had gone before it connected)", k.Name, st.ClientID, pk, mp), false
+				}
+			}
+			k.Send(EncDisconnect())
+		}
 		if !settle() {
 			return
 		}
